@@ -667,4 +667,65 @@ theorem adv_complete (pa pe pp pc : Option Pred) (lim : Limits) (eA last c : Ev)
   · simp [advance, nfaMid, runAt2, matchesState, tyOk, hc, hok, tryTransitions, tryEps, tryEpsTargets, Run.push, Cap.setOpt, hcapset]
   · simp [advance, nfaMid, runAt2, matchesState, tyOk, hc, hok, tryTransitions, tryEps, tryEpsTargets]
 
+/-! ### symbolic execution of `A -> all B` (trailing closure) -/
+
+/-- the pattern `A as a [where pa] -> all B as b [where pb]` -/
+def trailSteps (pa pb : Option Pred) : List Step :=
+  [{ ty := 0, pred := pa, alias := some 0 }, { ty := 1, pred := pb, alias := some 1, kleene := true }]
+
+/-- its automaton: 0 start → 1 A → 2 B (Kleene, self-loop, ε→2, ε→3) ; 3 continue = accept -/
+def nfaTrail (pa pe : Option Pred) : Nfa :=
+  { states := [
+      { ty := .start, trans := [1] },
+      { ty := .normal, evTy := some 0, pred := pa, alias := some 0, trans := [2] },
+      { ty := .kleene, evTy := some 1, pred := pe, alias := some 1, eps := [2, 3], selfLoop := true, epsAccept := true },
+      { ty := .accept } ],
+    start := 0 }
+
+theorem compile_trail_consistent (pa : Option Pred) (p : Pred) (h : selfRef (some 1) p = false) :
+    compile (trailSteps pa (some p)) = nfaTrail pa (some p) := by
+  simp [compile, trailSteps, compileStep, Nfa.addState, Nfa.addTransition, Nfa.addEpsilon, Nfa.setAccept, modifyAt, nfaTrail, h, List.modify]
+
+theorem compile_trail_nofilter (pa : Option Pred) : compile (trailSteps pa none) = nfaTrail pa none := by
+  simp [compile, trailSteps, compileStep, Nfa.addState, Nfa.addTransition, Nfa.addEpsilon, Nfa.setAccept, modifyAt, nfaTrail, List.modify]
+
+/-- the run of a trailing closure after the B events `kept` (no capture exists on this path) -/
+def runT (eA : Ev) (kept : List Ev) (last : Ev) (seq : Nat) : Run :=
+  { cur := 2, stack := ⟨eA, some 0⟩ :: kept.map (⟨·, some 1⟩), captured := capAB eA last, seq := seq }
+
+def matchT (eA : Ev) (kept : List Ev) (last : Ev) : Match :=
+  { captured := capAB eA last, stack := ⟨eA, some 0⟩ :: kept.map (⟨·, some 1⟩) }
+
+theorem advT_first (pa pe : Option Pred) (lim : Limits) (eA e : Ev) (seq : Nat) (he : e.ty ≠ 0) :
+    advance (nfaTrail pa pe) lim (runAt1 eA seq) e =
+      if e.ty = 1 ∧ predOk pe e [(0, eA)] = true then .completeCont (runT eA [e] e seq) (matchT eA [e] e)
+      else .noMatch (runAt1 eA seq) := by
+  have hcapset : Cap.set [(0, eA)] 1 e = capAB eA e := by simp [Cap.set, capAB]
+  by_cases h1 : e.ty = 1
+  · by_cases hok : predOk pe e [(0, eA)] = true
+    · simp [advance, nfaTrail, runAt1, runT, matchT, tryTransitions, matchesState, tyOk, h1, hok, enterKleene, Run.push,
+        Cap.setOpt, hcapset]
+    · simp [advance, nfaTrail, runAt1, tryTransitions, tryEps, matchesState, tyOk, h1, hok]
+  · simp [advance, nfaTrail, runAt1, tryTransitions, tryEps, matchesState, tyOk, h1]
+
+theorem advT_loop (pa pe : Option Pred) (lim : Limits) (eA last e : Ev) (kept : List Ev) (seq : Nat) (he : e.ty ≠ 0) :
+    advance (nfaTrail pa pe) lim (runT eA kept last seq) e =
+      if e.ty = 1 ∧ predOk pe e (capAB eA last) = true then
+        .completeCont (runT eA (kept ++ [e]) e seq) (matchT eA (kept ++ [e]) e)
+      else .noMatch (runT eA kept last seq) := by
+  have hcapset : Cap.set (capAB eA last) 1 e = capAB eA e := by simp [Cap.set, capAB]
+  by_cases h1 : e.ty = 1
+  · by_cases hok : predOk pe e (capAB eA last) = true
+    · simp [advance, nfaTrail, runT, matchT, matchesState, tyOk, h1, hok, Run.push, Cap.setOpt, hcapset]
+    · simp [advance, nfaTrail, runT, matchesState, tyOk, h1, hok, tryTransitions, tryEps, tryEpsTargets]
+  · simp [advance, nfaTrail, runT, matchesState, tyOk, h1, tryTransitions, tryEps, tryEpsTargets]
+
+theorem tryStart_trail_none (pa pe : Option Pred) (e : Ev) (seq : Nat) (h : e.ty ≠ 0) :
+    tryStart (nfaTrail pa pe) e seq = .none := by
+  simp [tryStart, nfaTrail, startTargets, startEps, matchesState, tyOk, h]
+
+theorem tryStart_trail_A (pa pe : Option Pred) (e : Ev) (seq : Nat) (h : e.ty = 0) (hp : predOk pa e [] = true) :
+    tryStart (nfaTrail pa pe) e seq = .run (runAt1 e seq) := by
+  simp [tryStart, nfaTrail, startTargets, matchesState, tyOk, h, hp, runAt1, Run.push, Cap.setOpt, Cap.set]
+
 end Varpulis.SaseK
